@@ -127,6 +127,12 @@ func resultDomain(thorough bool) []*client.OpResult {
 			}
 		}
 	}
+	if !thorough {
+		// two results that differ from an element above only in the server error text (IncludeServerError option)
+		for _, se := range []string{"boom", "other"} {
+			out = append(out, &client.OpResult{Timestamp: 42, Latency: 7, OperationID: 1, ProgrammingResult: spb.AFTResult_FAILED, Details: &client.OpDetailsResults{Type: constants.Add, NextHopIndex: 1}, ServerError: se})
+		}
+	}
 	out = append(out, &client.OpResult{Timestamp: 1, CurrentServerElectionID: &spb.Uint128{Low: 1}})
 	out = append(out, &client.OpResult{Timestamp: 1, CurrentServerElectionID: &spb.Uint128{Low: 2}})
 	out = append(out, &client.OpResult{Timestamp: 1, SessionParameters: &spb.SessionParametersResult{Status: spb.SessionParametersResult_OK}})
